@@ -617,8 +617,8 @@ func vC01RunCase(c vC01Case) (res vC01Result) {
 					switch st := rig.observeOffline(n); st {
 					case "ok":
 						res.stats["offline_obs"]++
-					case "foreign":
-						res.stats["offline_foreign_snapshot"]++
+					case "store_ahead":
+						res.stats["offline_store_ahead_of_trace"]++
 					case "error":
 						res.stats["offline_err"]++
 					default:
@@ -808,9 +808,26 @@ func vC01Finalize(rig *vC01Rig, subs []vC01Submitted, nNodes int, res *vC01Resul
 			res.stats["persist"]++
 		case "restore":
 			found := false
+			// the snapshot is looked up in the replica's own store first (a start-up restore; a copy it was sent before), then in
+			// the stores of the others (an install: the snapshot is also written into this replica's store, as its next entry)
+			cands := []persisted{}
 			for _, p := range pers {
+				if p.node == e.Node {
+					cands = append(cands, p)
+				}
+			}
+			for _, p := range pers {
+				if p.node != e.Node {
+					cands = append(cands, p)
+				}
+			}
+			for _, p := range cands {
 				if p.idx == e.Idx && p.hash == e.Hash {
 					lb := label(e.Idx)
+					if p.node != e.Node {
+						pers = append(pers, persisted{e.Node, perNode[e.Node], e.Idx, e.Hash})
+						perNode[e.Node]++
+					}
 					if lb > 0 {
 						commitUpTo(lb - 1)
 					}
